@@ -149,3 +149,36 @@ def partial(k1: OI, a1: int, n1: int, k2: int, a2: OI, n2: int, take: int, viama
     r2 = sig(C_ON.finditer(d2, filter_context=c2))
     r1 = sig(C_ON.finditer(d1, filter_context=c1))
     return ok(why(r2 == e2, "evaluation after an unfinished one", r2, e2) and why(r1 == e1, "re-evaluation after an unfinished one", r1, e1))
+
+
+def text_reuse(ki: int, ai: int, n: int, again_other: bool) -> bool:
+    """The document given as JSON text: what the caller does to the results of one evaluation is not seen by the next
+    evaluation of the same text (the result is a function of query, document and context alone).
+
+    pre: 0 <= ki <= 2 and 0 <= ai <= 2
+    pre: 0 <= n <= 2
+    post: _
+    """
+    import json
+
+    pool = [0, 1, None]
+    k, a = pool[0], pool[0]
+    for idx in range(3):
+        if ki == idx:
+            k = pool[idx]
+        if ai == idx:
+            a = pool[idx]
+    text = json.dumps(mkdoc(k, a, 1, a, n))
+    ctx = {"k": k, "xs": [1]}
+    exp = sig(C_OFF.finditer(json.loads(text), filter_context=ctx))
+    first = list(C_ON.finditer(text, filter_context=ctx))
+    if not why(sig(first) == exp, "evaluation of the text", sig(first), exp):
+        return ok(False)
+    for m in first:  # the caller edits what came back
+        if isinstance(m.obj, dict):
+            m.obj["a"] = "edited"
+            m.obj["k"] = "edited"
+        elif isinstance(m.obj, list):
+            m.obj.append({"a": k})
+    second = sig((C_OFF if again_other else C_ON).finditer(text, filter_context=ctx))
+    return ok(why(second == exp, "second evaluation of the same text sees the caller's edits", second, exp))
